@@ -129,6 +129,57 @@ def py_agg_prob(comp, T, deg):
     return acc + [Fraction(0)] * (deg + 1 - len(acc))
 
 
+def py_agg_mass(comp, T, deg):
+    """exact mean masses of the first deg+1 aggregated variants: with P_e(x) = sum a_i x^shift_i and M_e(x) = sum a_i m_i x^shift_i,
+    the probability series is prod P_e^n_e and the mass-weighted series is sum_e n_e P_e^(n_e - 1) M_e prod_{e' != e} P_e'^n_e';
+    the centre of variant j is the quotient of their j-th coefficients.  Truncated at deg, binary powers."""
+    def mul(a, b):
+        out = [Fraction(0)] * min(deg + 1, len(a) + len(b) - 1)
+        for i, x in enumerate(a):
+            if x == 0:
+                continue
+            for j, y in enumerate(b):
+                if i + j > deg:
+                    break
+                out[i + j] += x * y
+        return out
+
+    def power(pl, n):
+        res = [Fraction(1)]
+        base = pl[: deg + 1]
+        while n:
+            if n & 1:
+                res = mul(res, base)
+            base = mul(base, base)
+            n >>= 1
+        return res
+
+    def polys(s):
+        isos = T[s]["isos"]
+        width = max(i["shift"] for i in isos) + 1
+        pl, ml = [Fraction(0)] * width, [Fraction(0)] * width
+        for i in isos:
+            pl[i["shift"]] = Fraction(i["abundance"])
+            ml[i["shift"]] = Fraction(i["abundance"]) * Fraction(i["mass"])
+        return pl, ml
+    parts = [(n, *polys(s)) for s, n in comp if n > 0]
+    full = [power(pl, n) for n, pl, _ in parts]
+    prob = [Fraction(1)]
+    for f in full:
+        prob = mul(prob, f)
+    massw = [Fraction(0)] * (deg + 1)
+    for k, (n, pl, ml) in enumerate(parts):
+        term = mul(power(pl, n - 1), ml)
+        term = [n * x for x in term]
+        for k2, f in enumerate(full):
+            if k2 != k:
+                term = mul(term, f)
+        for j, x in enumerate(term[: deg + 1]):
+            massw[j] += x
+    prob = prob + [Fraction(0)] * (deg + 1 - len(prob))
+    return [(massw[j] / prob[j]) if prob[j] else None for j in range(deg + 1)]
+
+
 def f32_neighbours(x):
     """the f32 values just below and just above the real number x (as exact Fractions)"""
     import struct
@@ -444,6 +495,16 @@ def run_c03_c09(r: Run, prop):
                 if len(got) != len(want) or not all(close(a, b, rel=1e-9) for a, b in zip(got, want)):
                     why = (f"intensities {[float(x) for x in got][:4]} but the first {n_req} variants have exact shares "
                            f"{[float(x) for x in want][:4]}")
+                else:
+                    # "m/z is the probability-weighted mean mass of the variant": the exact centres by the same series
+                    centres = py_agg_mass(c, T, n_req - 1)
+                    kept = [(j, p / tot) for j, p in enumerate(probs) if p / tot >= Fraction(2, 10 ** 10)]
+                    big = [q for q in pk if q[1] >= Fraction(2, 10 ** 10)]
+                    for (j, share), q in zip(kept, big):
+                        exp = centres[j] if z == 0 else (centres[j] + z * PROTON) / abs(z)
+                        if not close(q[0], exp, rel=min(1e-6, max(1e-9, 1e-13 / float(share)))):
+                            why = f"variant {j}: m/z {float(q[0]):.9f}, the probability-weighted mean mass gives {float(exp):.9f}"
+                            break
             if why is not None:
                 corr_ok = False
                 r.violation("ratio", {"elements": sorted(s for s, _ in c)[:4], "scale": "huge"},
